@@ -17,6 +17,7 @@ import io
 import json
 import math
 import os
+import pathlib
 import shutil
 import struct
 import subprocess
@@ -156,12 +157,17 @@ def run_rt(c):
                     p = os.path.join(tmp, c.get('fname', 't.tsv.gz'))
                     with gzip.open(p, 'wb') as fh:
                         fh.write(text.encode('utf-8'))
-                t2 = load_table(p)
+                # the path as str, pathlib.Path or bytes (os.fsencode): all three name a file
+                pt = c.get('ptype', 'str')
+                t2 = load_table(pathlib.Path(p) if pt == 'pathlib' else os.fsencode(p) if pt == 'bytes' else p)
                 if c['process'] != 'naive':
                     # the path loader applies the identity; the inverse processing is `biom convert`'s
                     t2 = reprocess(t2, c['process'], tmp)
             elif mode == 'convert':
-                t2 = reprocess(load_table(os.path.join(tmp, c.get('fname', 't.tsv'))), c['process'] if o['hk'] else None, tmp)
+                p = os.path.join(tmp, c.get('fname', 't.tsv'))
+                pt = c.get('ptype', 'str')
+                t2 = reprocess(load_table(pathlib.Path(p) if pt == 'pathlib' else os.fsencode(p) if pt == 'bytes' else p),
+                               c['process'] if o['hk'] else None, tmp)
             elif mode == 'cli':
                 t2 = cli_import(os.path.join(tmp, c.get('fname', 't.tsv')), c, tmp)
                 md = t2.metadata()
@@ -741,6 +747,8 @@ def gen_rt(rng, tier, promised_only=False):
         c['fname'] = rng.choice(['t.tsv', 't.tsv', 't.tsv.gz', 't.gz', 't.txt', 't'])
     if mode == 'gz':
         c['fname'] = rng.choice(['t.tsv.gz', 't.tsv.gz', 't.tsv', 't.gz', 't'])
+    if mode in ('path', 'gz', 'convert'):
+        c['ptype'] = rng.choice(['str', 'pathlib', 'pathlib', 'bytes'])
     if mode in ('lines', 'handle') and rng.random() < 0.3:
         c['direct'] = True
     if c['mode'] not in ('lines', 'handle') and not promised(c):
@@ -748,6 +756,7 @@ def gen_rt(rng, tier, promised_only=False):
         # `biom convert`, which refuses to process metadata that was read as a sample column
         c['mode'] = mode = rng.choice(['lines', 'handle'])
         c.pop('fname', None)
+        c.pop('ptype', None)
     if promised_only or mode == 'convert' or rng.random() < 0.7:
         return c
     # ---- not-promised stream: the model must still agree with the code
@@ -797,6 +806,7 @@ def gen_rt(rng, tier, promised_only=False):
         c['mode'] = rng.choice(['lines', 'handle'])
     c['hkind'], c['api'] = 'stringio', 'from_tsv'
     c.pop('fname', None)
+    c.pop('ptype', None)
     return c
 
 
@@ -880,6 +890,7 @@ def gen_cli(rng, tier, how):
     c['mode'] = 'cli'
     c.pop('hkind', None)
     c.pop('api', None)
+    c.pop('ptype', None)
     c['fname'] = rng.choice(['t.tsv', 't.tsv', 't.tsv.gz', 't.gz', 't.txt', 't'])
     o, spec = c['opts'], c['spec']
     strings = o['hk'] is None or o['fmt'] == 'naive'
@@ -958,6 +969,8 @@ def classify(c):
     tags.append('md:' + ('none' if c['opts']['hk'] is None else c['opts']['fmt']))
     if c['mode'] == 'handle':
         tags.append('handle:%s/%s' % (c.get('hkind', 'stringio'), c.get('api', 'from_tsv')))
+    if c.get('ptype'):
+        tags.append('path-as:' + c['ptype'])
     if c.get('fname'):
         tags.append('name:%s%s' % ('gzip-as-' if c['mode'] == 'gz' else 'plain-as-', c['fname']))
     if 'ocn' in c['opts']:
